@@ -1,5 +1,6 @@
 import Driver.Decode
 import CambrianModel.Model.Process
+import CambrianModel.Model.ChildSchema
 open Lean Cambrian
 namespace Driver.ProcReplay
 open Cambrian.Proc
@@ -60,6 +61,29 @@ def replay (j : Json) : R Verdict := do
   | none => pure ()
   -- exit status class
   let okExit := exitCode == some 0
+  -- family outputs: every child of the run prints the same document and ends the same way; the schema model
+  -- (`Proc.childOutOf` over the extracted "objects only" fact) and `classifyChild` say what one evaluation is, hence
+  -- how the run ends: an accepted value -> success (sample size 1, budget 3); a rejection every time -> no individuals;
+  -- a failure -> the run fails
+  let cd := fieldD j "childDoc"
+  if family == "outputs" && !cd.isNull then
+    let (doc, casts) ← (if cd.getStr?.toOption == some "notJson" then pure (none, []) else do
+      let (d, cs) ← decJ cd []
+      pure (some d, cs) : R (Option J × List (Int × F64)))
+    let st : ExitStatus := match (fieldD j "childSignal").getNat?.toOption with | some sg => .signaled sg | none => .exited 0
+    let r := classifyChild { exitOk := exitOkOf Generated.childStatusBySuccessFirst st, out := childOutOf Generated.childResultObjectsOnly (mkCast casts) doc }
+    let sampled := opts.contains "--sample-size"
+    tags := (match r with | .accepted _ => "outputs:accepted" | .rejected => "outputs:rejected" | .failed _ => "outputs:failed") :: tags
+    match r with
+    | .accepted _ =>
+      if !sampled && !okExit && !hang then
+        dis := some s!"child result schema: the model accepts what every child printed ({cd.compress}), the run failed with exit status {(fieldD obs "exitCode").compress}"
+        pf := ("C16", s!"every child printed a valid result ({cd.compress}) and exited with status 0, yet the run failed: {((fieldD obs "stderrTail").getStr?.toOption.getD "").takeEnd 160}") :: pf
+    | _ =>
+      if okExit then
+        dis := some s!"child result schema: the model says {repr r} for what every child did (document {cd.compress}, signal {(fieldD j "childSignal").compress}), the run succeeded"
+        pf := ("C16", s!"no child of this run delivered an accepted result (each one: {repr r}; document {cd.compress}, signal {(fieldD j "childSignal").compress}), yet the run ended with exit status 0") ::
+              ("C06", s!"no child of this run delivered an accepted result (each one: {repr r}), yet the run ended with exit status 0") :: pf
   match (fieldD exp "exit").getStr?.toOption with
   | some "ok" => if !okExit then
       pf := ((if family == "kill-after" || family == "kill-huge" then "C07" else "C16"), s!"expected a successful run, got exit status {(fieldD obs "exitCode").compress}: {((fieldD obs "stderrTail").getStr?.toOption.getD "").takeEnd 160}") :: pf
